@@ -169,4 +169,34 @@ instance (ty : Nat) : Decidable (TypeTextOK ty) := by unfold TypeTextOK; exact i
 /-- every type of the mnemonic table of the working tree is printed as a token that reads back as that type -/
 theorem typeText_table_ok : ∀ p ∈ ConstsC09.typeText, TypeTextOK p.1 := by decide
 
+/-- text that reads as an absolute name reads as the same name whatever origin is supplied -/
+theorem fromText_abs_origin (t : List Nat) (n o : Name) (h : fromText t none = .ok n) (habs : isAbs n = true) :
+    fromText t (some o) = .ok n := by
+  unfold fromText at h ⊢
+  simp only at h ⊢
+  generalize (if t = [64] then [] else t) = text at h ⊢
+  generalize (if text = [] then (Except.ok [] : Except NameErr (List Label)) else if text = [46] then .ok [[]] else
+    match ftRun ftInit text with
+      | .error e => .error e
+      | .ok s => if s.esc.isSome then .error .badEscape else .ok (s.labels ++ [s.label])) = labelsE at h ⊢
+  cases labelsE with
+  | error e => exact h
+  | ok labels =>
+    simp only at h ⊢
+    by_cases h46 : text = [46]
+    · simpa [h46] using h
+    · simp only [h46, if_false] at h ⊢
+      obtain ⟨rfl, _⟩ := wf_of_validate _ _ h
+      have hl : n.getLast? = some [] := by
+        unfold isAbs at habs
+        split at habs
+        · assumption
+        · cases habs
+      have : ¬(n = [] ∨ n.getLast? ≠ some []) := by
+        intro hc
+        rcases hc with hc | hc
+        · subst hc; simp at hl
+        · exact hc hl
+      simp only [this, if_false]
+      exact h
 end Model
